@@ -61,6 +61,11 @@ CHECKS['C19'] = dict(level=MC, engine='NetListener', design='DESIGN.md §3 C19; 
    note='Real sockets and the real event loop: under heavy machine load a path is abandoned (not judged) after repeated 1 s handshake time-outs. One known finding (late data re-creates a closed stream) is classified and skipped.',
    technique='TLA+ spec with result-parameterised actions + TLC exhaustive; edge-cover replay on the real listener/sessions with per-step conformance and ledger oracles')
 
+CHECKS['C03'] = dict(level=MC, engine='Layout', design='DESIGN.md §3 C03; checks/layout_NOTES.md',
+   text='Layout.tla transcribes createBufferManager/mappingBufferManager/createFreeBufferList/countBufferListMemSize and the queue create/mapping functions as pure operators (including the uint32 arithmetic, at reduced word width so that wrap-around is reachable by TLC) with soundness (slots pairwise disjoint, inside the mapping, behind their headers), creator/mapper agreement and queue cross-wiring as properties over an enumerated configuration space; every grid point and boundary case is executed on the REAL create/mapping functions (heap, /dev/shm file and memfd back-ends, sparse 4 GiB mappings for the wide cases), comparing error/no-error and the full geometry with the operators, writing a pattern through every slot of one side and reading it through the other, and putting an element on one side\'s send queue and popping it from the peer\'s receive queue.',
+   note='arm64 queue header layout is not built. Three uint32 wrap-around defects found here are fixed in /repo.',
+   technique='TLA+ operators (reduced word width) + TLC over a configuration grid; every configuration executed on the real layout code with geometry comparison')
+
 PENDING = {}
 
 def main():
